@@ -934,9 +934,10 @@ class Builder:
                 assert isinstance(cond_operand, operand.Register)
                 temp_regs_to_remove.append(cond_operand)
 
+            # "at most `value`" means strictly less than `value + 1`
             branch = ICmd(
                 instruction=GenericInstr.BLT,
-                operands=[cond_operand, condition.value, Label(exit_label)],
+                operands=[cond_operand, condition.value + 1, Label(exit_label)],
             )
             if_start.append(branch)
             commands = if_start
